@@ -29,13 +29,29 @@ def run_case(c):
         if cfg.get('xf'): meta['key_transform_with_dump'] = cfg['xf']
         if cfg.get('dt'): meta['marshal_date_time_as'] = cfg['dt']
         if cfg.get('tag_key'): meta['tag_key'] = cfg['tag_key']
+        if cfg.get('auto_tags'): meta['auto_assign_tags'] = True
         rt.bind_meta(cls, meta)
         x = rt.build_value(c['value'], reg)
+        if c.get('catchall_items') is not None:
+            # the CatchAll field is the one flagged in the spec; its dict is given separately
+            fname = [fd['name'] for fd in c['root']['fields'] if fd.get('catchall')][0]
+            setattr(x, fname, rt.build_value(c['catchall_items'], reg))
     except BaseException as e:
         out['setup_err'] = err_info(e); out['setup_err']['tb'] = traceback.format_exc()[-800:]
         return out
-    out['coq_v'] = rt.coq_pv(x, reg, old=True)
+    if not c.get('nomodel'):
+        out['coq_v'] = rt.coq_pv(x, reg, old=True)
     out['lets'] = reg.lets
+    # history: nested dataclass instances are dumped on their own BEFORE the first dump of the owner
+    if c.get('pre_dump'):
+        pre = []
+        for m in rt.nested_instances(x):
+            try:
+                asdict(m)
+                pre.append(type(m).__name__)
+            except BaseException as e:
+                out['pre_dump_err'] = err_info(e)
+        out['pre_dumped'] = pre
     out['keys_scalar'] = keys_scalar(x)
     before = rt.show(x, reg)
     ids_before = rt.mutable_ids(x)
@@ -74,6 +90,13 @@ def run_case(c):
             out['to_json_ok'] = False
             out['to_json_err'] = repr(e)[:300]
     out['unchanged'] = out['unchanged'] and rt.show(x, reg) == before
+    # editing the result must not be visible through the instance
+    try:
+        rt.scribble(d)
+        out['scribble_ok'] = rt.show(x, reg) == before
+    except BaseException as e:
+        out['scribble_ok'] = True
+        out['scribble_err'] = repr(e)[:200]
     return out
 
 
